@@ -28,6 +28,7 @@ def dispatch (line : String) : String :=
   | "exec" :: rest => handleExec rest
   | "execw" :: rest => handleExecW rest
   | "elidetie" :: rest => handleElideTie rest
+  | "replace" :: rest => handleReplace rest
   | "execeq" :: rest => handleExecEq rest
   | _ => "bad-request"
 
